@@ -180,12 +180,14 @@ void PoolWakeState::wakeAll() {
   // its data.running() check but before enterSleep() (which sets the bit).
   // Without the bump, such a thread enters waitFor with a stale epoch and
   // blocks until timeout — causing slow shutdown.
+  //
+  // The futex wake is issued unconditionally: the sleep mask can under-report sleepers. A claimer
+  // clears the bit of the thread it chose (tryClaimSleeper) but the kernel may release a different
+  // waiter of the group's shared futex, which then clears its own bit too; the chosen thread stays
+  // parked with its bit clear. Skipping the wake when the mask reads zero left such a thread asleep
+  // and made shutdown and resize wait for the sleep backstop.
   for (int32_t g = 0; g < numGroups_; ++g) {
-    if (groupStates_[static_cast<size_t>(g)].sleepMask.load(std::memory_order_relaxed)) {
-      waiterFor(g * groupSize_).bumpAndWakeAll();
-    } else {
-      waiterFor(g * groupSize_).bump();
-    }
+    waiterFor(g * groupSize_).bumpAndWakeAll();
   }
 }
 
